@@ -10,6 +10,7 @@
 //  sub "api_masks": same objects created under the four CPU masks {0,1,2,3}; module-level calls in the exact regime;
 //                   integer results must be identical across the masks.
 #include <algorithm>
+#include <thread>
 #include <cmath>
 #include <functional>
 #include <map>
@@ -1405,14 +1406,16 @@ std::vector<Sub> vh_subs() {
     // were detected when the table was created (dispatch thresholds on m, log2bound, log2overhead included)
     Sub s;
     s.name = "table_masks";
-    s.fields = {{"logm", 0, 12}, {"op", 0, 5}, {"log2bound", 0, 64}, {"divexp", -4, 40}, {"ovh", 0, 48}, {"seed", 0, INT64_MAX - 1}};
+    s.fields = {{"logm", 0, 12}, {"op", 0, 8}, {"log2bound", 0, 64}, {"divexp", -4, 40}, {"ovh", 0, 48}, {"seed", 0, INT64_MAX - 1}};
     s.run = [](const Vals& v, Ctx& c) {
       const uint64_t m = 1ull << v[0];
       const int op = (int)v[1];
       const uint32_t L = (uint32_t)v[2];
       const double dv = std::ldexp(1.0, (int)v[3]);
       const uint32_t ovh = (uint32_t)v[4];
-      static const char* names[] = {"reim_to_znx64", "reim_from_znx64", "reim_to_tnx", "cplx_from_znx32", "cplx_from_tnx32", "cplx_to_tnx32"};
+      static const char* names[] = {"reim_to_znx64", "reim_from_znx64", "reim_to_tnx", "cplx_from_znx32", "cplx_from_tnx32", "cplx_to_tnx32",
+                                    "reim_to_znx64_simple(bound<=50 then bound>50)", "znx_small_single_product(monomials, |result| in [2^50,2^52))",
+                                    "svp+idft(monomials, |result| in [2^50,2^52))"};
       Rng r((uint64_t)v[5]);
       std::vector<double> xd(2 * m);
       std::vector<int64_t> xi(2 * m);
@@ -1443,6 +1446,68 @@ std::vector<Sub> vh_subs() {
           }
           case 3: { auto* t = new_cplx_from_znx32_precomp((uint32_t)m); std::vector<double> rd(2 * m); cplx_from_znx32(t, rd.data(), x32.data()); free(t); o.assign((uint8_t*)rd.data(), (uint8_t*)(rd.data() + 2 * m)); break; }
           case 4: { auto* t = new_cplx_from_tnx32_precomp((uint32_t)m); std::vector<double> rd(2 * m); cplx_from_tnx32(t, rd.data(), x32.data()); free(t); o.assign((uint8_t*)rd.data(), (uint8_t*)(rd.data() + 2 * m)); break; }
+          case 6: {
+            // the cached convenience API in a FRESH thread (its cache is thread-local): a narrow-bound call, then a wide-bound call on the same
+            // dimension and divisor with values up to 2^52 -- the second result must not depend on the CPU features either
+            std::vector<int64_t> r1(2 * m), r2(2 * m);
+            std::vector<double> small(2 * m);
+            for (uint64_t q = 0; q < 2 * m; ++q) small[q] = (double)((int64_t)(q % 7) - 3) * dv + 0.25 * dv;
+            const uint32_t Lw = L > 50 ? L : 51 + L % 13;
+            std::vector<double> wide(2 * m);
+            {
+              Rng r3((uint64_t)v[5] ^ 1234);
+              for (uint64_t q = 0; q < 2 * m; ++q) wide[q] = std::floor(std::ldexp(0.5 + 0.499 * r3.unit(), 52 - (int)r3.below(2))) * dv * (r3.below(2) ? -1.0 : 1.0);
+            }
+            std::thread th([&]() {
+              reim_to_znx64_simple((uint32_t)m, dv, 40 + (uint32_t)(v[5] % 11), r1.data(), small.data());
+              reim_to_znx64_simple((uint32_t)m, dv, Lw, r2.data(), wide.data());
+            });
+            th.join();
+            o.assign((uint8_t*)r1.data(), (uint8_t*)(r1.data() + 2 * m));
+            o.insert(o.end(), (uint8_t*)r2.data(), (uint8_t*)(r2.data() + 2 * m));
+            break;
+          }
+          case 7: case 8: {
+            // module level, result coefficient in the top two binades of the 52-bit budget: c1*X^i times c2*X^j (exact in every configuration)
+            const uint64_t n = 2 * m;
+            MODULE* mod = spq::modules().get(n, FFT64, mask);
+            Rng r3((uint64_t)v[5] ^ 4321);
+            const int bits = 50 + (int)r3.below(2);              // |c1*c2| in [2^bits, 2^(bits+1))
+            const int b1 = 1 + (int)r3.below(49);
+            int64_t c1 = ((int64_t)1 << b1) | (int64_t)r3.below(1ull << b1);
+            int64_t c2 = (int64_t)std::floor(std::ldexp(1.0 + r3.unit() * 0.99, bits) / (double)c1);
+            if (c2 < 1) c2 = 1;
+            if (c2 >= ((int64_t)1 << 50)) c2 = ((int64_t)1 << 50) - 1;
+            if (r3.below(2)) c1 = -c1;
+            std::vector<int64_t> a(n, 0), b(n, 0), res(n, 0);
+            const uint64_t ia = r3.below(n), ib = r3.below(n);
+            a[ia] = c1; b[ib] = c2;
+            if (op == 7) {
+              std::vector<uint8_t> tmp(znx_small_single_product_tmp_bytes(mod) + 64);
+              znx_small_single_product(mod, res.data(), a.data(), b.data(), tmp.data());
+            } else {
+              std::vector<uint8_t> pp(bytes_of_svp_ppol(mod) + 64), dd(bytes_of_vec_znx_dft(mod, 1) + 64);
+              svp_prepare(mod, (SVP_PPOL*)pp.data(), b.data());
+              svp_apply_dft(mod, (VEC_ZNX_DFT*)dd.data(), 1, (SVP_PPOL*)pp.data(), a.data(), 1, n);
+              vec_znx_idft_tmp_a(mod, (VEC_ZNX_BIG*)res.data(), 1, (VEC_ZNX_DFT*)dd.data(), 1);
+            }
+            // exact value: c1*c2 at (ia+ib) mod n, negated when the exponent wraps
+            const __int128 pr = (__int128)c1 * c2;
+            const uint64_t e = (ia + ib) % n;
+            const __int128 ex = (ia + ib) >= n ? -pr : pr;
+            // near 2^52 the product is NOT in the exact regime (E = 8 log2N 2^-53 * 2|c1 c2| is a few units): every configuration must be
+            // within the documented E + 1/2 of the exact value; the configurations need not agree bit for bit (so nothing is appended to `o`)
+            const long double apr = fabsl((long double)pr);
+            const long double E = 8.0L * log2l((long double)n) * ldexpl(1.0L, -53) * 2.0L * apr * (1.0L + 1e-12L);
+            if (apr < ldexpl(1.0L, 52))
+              for (uint64_t q = 0; q < n; ++q) {
+                const long double d = fabsl((long double)((__int128)res[q] - (q == e ? ex : 0)));
+                if (d > E + 0.5L)
+                  return c.failf("%s N=%llu under CPU mask %u: %lld*X^%llu times %lld*X^%llu: coefficient %llu = %lld, exact %lld (|err| %.4Lg > E+1/2 = %.4Lg)", names[op], (unsigned long long)n,
+                                 mask, (long long)c1, (unsigned long long)ia, (long long)c2, (unsigned long long)ib, (unsigned long long)q, (long long)res[q], (long long)(q == e ? ex : 0), d, E + 0.5L);
+              }
+            break;
+          }
           default: {
             std::vector<double> in(2 * m);
             std::vector<int32_t> r32(2 * m);
